@@ -131,7 +131,7 @@ type gctx struct {
 	// set once perturb() has run: later displacements must exceed tol + 63/64 tol
 	perturbed bool
 	cell      int
-	ox, oy float64
+	ox, oy    float64
 }
 
 // lattice unit: the tolerance, except in coarse mode
@@ -1112,6 +1112,25 @@ func corpus(out *bufio.Writer) {
 	emit(out, "boundary:?", 0.5, P(0, 0), P(0.5, 0))
 	emit(out, "boundary:?", 0.5, P(0, 0), P(0, -0.5))
 	emit(out, "perturb:T", 0.5, P(0, 0), P(0.4375, -0.4375))
+	// the last double below tol / the first above it (one operand 0, so that a-b is exact): "perturbed
+	// by less than tol" is true up to pred(tol), "displaced by more than tol" from succ(tol) on
+	for _, tol := range []float64{0.5, 0.1, 1.0 / (1 << 30), 3, 1 << 30} {
+		lo, hi := math.Nextafter(tol, 0), math.Nextafter(tol, math.Inf(1))
+		emit(out, "perturb:T", tol, P(0, 0), P(lo, 0))
+		emit(out, "perturb:T", tol, P(0, -lo), P(0, 0))
+		emit(out, "perturb:T", tol, P(0, 0), P(-lo, lo))
+		emit(out, "displace:F", tol, P(0, 0), P(hi, 0))
+		emit(out, "displace:F", tol, P(0, hi), P(0, 0))
+		emit(out, "displace:F", tol, P(0, 0), P(lo, -hi))
+		z := P(0, 0)
+		emit(out, "perturb:T", tol, geom.LineString{z, z, z}, geom.LineString{z, P(lo, -lo), z})
+		emit(out, "displace:F", tol, geom.LineString{z, z, z}, geom.LineString{z, P(lo, -hi), z})
+		emit(out, "perturb:T", tol, geom.MultiPoint{z, z}, geom.MultiPoint{P(-lo, 0), P(0, lo)})
+		emit(out, "perturb:T", tol, &geom.Bounds{Min: z, Max: z}, &geom.Bounds{Min: P(-lo, -lo), Max: P(lo, lo)})
+		emit(out, "displace:F", tol, &geom.Bounds{Min: z, Max: z}, &geom.Bounds{Min: P(-lo, -lo), Max: P(lo, hi)})
+		emit(out, "perturb:T", tol, geom.Polygon{{z, P(0, 8*tol), P(8*tol, 0), z}}, geom.Polygon{{P(lo, 0), P(0, 8*tol), P(8*tol, 0), P(lo, 0)}})
+		emit(out, "displace:F", tol, geom.Polygon{{z, P(0, 8*tol), P(8*tol, 0), z}}, geom.Polygon{{P(hi, 0), P(0, 8*tol), P(8*tol, 0), P(hi, 0)}})
+	}
 	// empties and tiny rings
 	emit(out, "edge:?", 0.5, geom.Polygon{{}}, geom.Polygon{{}})
 	emit(out, "edge:?", 0.5, geom.Polygon{{P(1, 1)}}, geom.Polygon{{P(1, 1)}})
@@ -1163,7 +1182,7 @@ func nilCases(out *bufio.Writer, g *gctx) {
 		e(GC{m}, GC{nil})
 		e(GC{m, nil}, GC{nil, m})
 		e(GC{nil, m}, GC{m, nil})
-		e(GC{m, nil}, GC{m})         // count check answers before any member is touched
+		e(GC{m, nil}, GC{m})            // count check answers before any member is touched
 		e(GC{ms[0], nil}, GC{m, ms[1]}) // an earlier member may be unmatched before the nil is reached
 		e(GC{GC{nil}}, GC{GC{m}})
 		e(GC{m, GC{m, nil}}, GC{GC{nil, m}, m})
@@ -1308,7 +1327,7 @@ func gen(seed uint64, tier string) {
 			g.pinchedCases(out, it/8)
 		}
 		if (tier != "thorough" && it%625 == 7 || it%2500 == 7) && g.dyadic {
-			concEvery, concCount = 13, 0 // large member / vertex counts: calls long enough to overlap
+			concEvery, concCount = 13, 0   // large member / vertex counts: calls long enough to overlap
 			g.bigCases(out, bigCalls == 0) // first call: also a 1025-vertex ring
 			// repeated members: every member-list kind, one count of each group per call
 			// (kinds rotate over the calls; every kind gets every count group at least twice per run)
